@@ -47,14 +47,19 @@ def model_cases(chk, model, cfgfile=None, timeout=3000, xmx="24g"):
     return cases
 
 
+def _denv(env, variant):
+    return ["unset" if (e == [] and (variant + k) % 2 == 0) else e for k, e in enumerate(env)]
+
+
 def driver_case(c, variant=0, via="argv"):
-    env = []
-    for k, e in enumerate(c["env"]):
-        if e == [] and (variant + k) % 2 == 0:
-            env.append("unset")
-        else:
-            env.append(e)
-    return dict(cfg=c["cfg"], env=env, calls=[x["argv"] for x in c["calls"]], via=via)
+    """A specification case as the driver's input.  Every call carries the environment it is made in; when they
+    differ (ChangeEnv) the driver gets `envs` and re-establishes the environment before each call, having declared
+    the parser under the environment of the LAST call (so nothing read at declaration time can look right)."""
+    cenvs = [x.get("env", c["env"]) for x in c["calls"]]
+    d = dict(cfg=c["cfg"], env=_denv(cenvs[0] if cenvs else c["env"], variant), calls=[x["argv"] for x in c["calls"]], via=via)
+    if any(e != cenvs[0] for e in cenvs):
+        d["envs"] = [_denv(e, variant + k) for k, e in enumerate(cenvs)]
+    return d
 
 
 def inputs_view(c):
@@ -63,11 +68,11 @@ def inputs_view(c):
     calls = []
     for x, cls in zip(c["calls"], c["inputs"]):
         if cls == "ok":
-            calls.append(dict(argv=x["argv"], res=x["res"], why=""))
+            calls.append(dict(argv=x["argv"], res=x["res"], why="", env=x.get("env", c["env"])))
         elif cls == "parser_error":
-            calls.append(dict(argv=x["argv"], res=dict(oc="parser_error", st=[], pos=[]), why="Inconsistent"))
+            calls.append(dict(argv=x["argv"], res=dict(oc="parser_error", st=[], pos=[]), why="Inconsistent", env=x.get("env", c["env"])))
         else:
-            calls.append(dict(argv=x["argv"], res=dict(oc="error", st=[], pos=[]), why=x["why"] or "Malformed"))
+            calls.append(dict(argv=x["argv"], res=dict(oc="error", st=[], pos=[]), why=x["why"] or "Malformed", env=x.get("env", c["env"])))
     ok_calls = [k for k, (x, cls) in enumerate(zip(c["calls"], c["inputs"])) if cls == "ok" and x["res"]["oc"] != "ok"]
     if ok_calls:
         return None      # cannot happen: whatever the vector entry accepts the argv entry accepts too
@@ -115,6 +120,11 @@ def compare_case(chk, c, o, dcase):
     for k, x in enumerate(c["calls"]):
         hist = " (call %d of %d on one parser)" % (k + 1, len(c["calls"])) if len(c["calls"]) > 1 else ""
         wit = dict(cfg=c["cfg"], env=dcase["env"], calls=dcase["calls"][:k + 1], via=dcase.get("via", "argv"))
+        if "envs" in dcase:
+            wit["envs"] = dcase["envs"][:k + 1]
+            hist += " env of this call %s" % [e if e == "unset" else _s(e) for e in dcase["envs"][k]]
+        if dcase.get("moved"):
+            wit["moved"] = True
         where0 = ("Scan/" + x["why"]) if x["res"]["oc"] == "error" else "Result"
         if dcase.get("via") == "inputs":
             where0 = "ViaInputs/" + where0
@@ -470,20 +480,29 @@ def record_and_validate(chk, exe, n_parsers, profile, calls_per_parser=(1, 1)):
                 dcases.append(dict(cfg=cfg, env=env, calls=calls, want=wants))
         else:
             dcases.append(dict(cfg=cfg, env=env, calls=[rand_argv(rng, cfg, profile) for _ in range(k)]))
+        d = dcases[-1] if dcases else None
+        if d is not None and nenv and len(d["calls"]) > 1 and len(dcases) % 3 == 0:
+            # the application changes the environment between the calls (ChangeEnv)
+            d["envs"] = [env] + [rand_env(rng, nenv) for _ in d["calls"][1:]]
     for k, d in enumerate(dcases):
         d["via"] = "inputs" if (k % 4 == 3 and not profile.get("long")) else "argv"
     for k, d in enumerate(dcases):
         d["moved"] = (k % 5 == 2)        # every fifth parser is moved (constructed / assigned) before each call
-    obs = vc.run_cases(exe, [dict(cfg=d["cfg"], env=d["env"], calls=d["calls"], via=d["via"], moved=d["moved"]) for d in dcases], chk.out, "record", per_case_timeout=10)
+    def dc(d):
+        x = dict(cfg=d["cfg"], env=d["env"], calls=d["calls"], via=d["via"], moved=d["moved"])
+        if "envs" in d:
+            x["envs"] = d["envs"]
+        return x
+    obs = vc.run_cases(exe, [dc(d) for d in dcases], chk.out, "record", per_case_timeout=10)
     execs = []
     meta = []
     for d, o in zip(dcases, obs):
         if o.get("outcome") == "skipped":
             continue
         calls = o.get("calls") if o.get("outcome") == "ok" else o.get("steps", [])
-        tenv = [[] if e == "unset" else e for e in d["env"]]
         evs = []
         for k, av in enumerate(d["calls"]):
+            tenv = [[] if e == "unset" else e for e in (d["envs"][k] if "envs" in d else d["env"])]
             if k < len(calls):
                 g = calls[k]
                 oc = "ok" if g["oc"] == "ok" else ("error" if g["oc"] == "parsing_error" else g["oc"])
@@ -514,10 +533,12 @@ def record_and_validate(chk, exe, n_parsers, profile, calls_per_parser=(1, 1)):
         d, o = meta[k]
         ev = execs[k][min(matched, len(execs[k]) - 1)]
         wit = dict(cfg=d["cfg"], env=d["env"], calls=d["calls"][:matched + 1], via=d["via"], moved=d["moved"])
+        if "envs" in d:
+            wit["envs"] = d["envs"][:matched + 1]
         observed = ev["oc"] if ev["oc"] not in ("ok", "error") else ("accepted" if ev["oc"] == "ok" else "rejected")
         chk.diverge(("Reparse/" if matched > 0 else "") + "Trace", observed, wit,
                     "recorded parse call %d rejected by OptTrace (%s): argv=%s env=%s decl=%s -> %s %s" % (
-                        matched + 1, why, show_argv(ev["argv"]), [e if e == "unset" else _s(e) for e in d["env"]],
+                        matched + 1, why, show_argv(ev["argv"]), [_s(e) for e in ev["env"]],
                         [vc.ub(x["name"]) + ":" + x["kind"] + ("/" + chr(x["letter"]) if x["letter"] else "") for x in d["cfg"]["decl"]],
                         ev["oc"], summarize(d["cfg"], ev["st"]) if ev["st"] else ""), artefact=path)
     if execs:
@@ -533,13 +554,13 @@ PLAN = {
     # call on a parser object, not only the first one
     "C01": (["MC_Opt_C01_quick", "MC_Opt_C14_quick"], ["MC_Opt_C01_thorough", "MC_Opt_C14_quick"], dict(env=0.0, long=0.0), 3000, 40000, (1, 3)),
     "C02": (["MC_Opt_C02_quick", "MC_Opt_C14_quick"], ["MC_Opt_C02_thorough", "MC_Opt_C14_quick"], dict(env=0.0, render=True), 3000, 40000, (1, 2)),
-    "C03": (["MC_Opt_C03", "MC_Opt_C14_quick"], ["MC_Opt_C03", "MC_Opt_C14_thorough"], dict(env=0.9), 3000, 40000, (1, 3)),
+    "C03": (["MC_Opt_C03", "MC_Opt_C14_quick", "MC_Opt_C14env_quick"], ["MC_Opt_C03", "MC_Opt_C14_thorough", "MC_Opt_C14env_thorough"], dict(env=0.9), 3000, 40000, (1, 3)),
     # C04 also replays the re-parse histories: "the error is raised exactly when ..." must hold for every call, not only the first
     "C04": (["MC_Opt_C04_quick", "MC_Opt_C14_quick", "MC_Opt_C11b", "MC_Opt_Live"], ["MC_Opt_C04_thorough", "MC_Opt_C03", "MC_Opt_C14_quick", "MC_Opt_C11b", "MC_Opt_Live"],
             dict(env=0.3, long=0.03, batch=400), 3000, 30000, (1, 3)),
     "C11": (["MC_Opt_C11a_quick", "MC_Opt_C11b", "MC_Opt_C14_quick"], ["MC_Opt_C11a_thorough", "MC_Opt_C11b", "MC_Opt_C14_quick"], dict(env=0.6, toggles=True), 3000, 40000, (1, 3)),
     "C12": (["MC_Opt_C12_quick", "MC_Opt_C14_quick"], ["MC_Opt_C12_thorough", "MC_Opt_C14_quick"], dict(env=0.0, positional=True), 3000, 40000, (1, 3)),
-    "C14": (["MC_Opt_C14_quick"], ["MC_Opt_C14_thorough"], dict(env=0.3), 1500, 15000, (2, 6)),
+    "C14": (["MC_Opt_C14_quick", "MC_Opt_C14env_quick"], ["MC_Opt_C14_thorough", "MC_Opt_C14env_thorough"], dict(env=0.3), 1500, 15000, (2, 6)),
 }
 
 ASSUME = ["the declaration given to the driver is the one the model describes (built through the public declaration API)",
